@@ -1,5 +1,5 @@
 # Data for MANIFEST.json (bin/mkmanifest).
-HOOK_COMMITS = ["5824e64"]
+HOOK_COMMITS = ["5824e64", "d74c24e"]
 NOTES = ("Every check: rebuilds the Go harness with -tags verif against /repo's working tree, regenerates coq/theories/Gen, "
          "rebuilds Props/<id>.vo (full .vo), audits Print Assumptions, runs the implementation and the Coq model on the same inputs, "
          "evaluates the property oracle on the implementation, applies known_findings.json. VERIF_SEED seeds the single PRNG.")
@@ -10,5 +10,26 @@ CLAIMED = {
    text="Theorems (all first bytes, all version numbers, arbitrary format-specific entry points): both universal dispatchers equal the specific entry point of the detected format; both formats accept exactly versions 0 and 1; marshalers announce version 0. The dispatch tables and the version constant are regenerated from the code on every run, so a changed dispatcher breaks the proof; the version maps are hand-modelled and compared with both decoders on every run.",
    note=COMMON_NOTE + "The format-specific entry points are abstract functions in the theorem (section variables); the search stage compares universal and specific entry points on real documents.",
    technique="Coq proof (finite sweep over 256 first bytes lifted by forallb_forall; case analysis on version) + regenerated tables + differential run"),
+
+ "C11": dict(
+   text="Theorems for all inputs: the streaming UTF-8 validator (partial character carried between data events) accepts a list of data events iff their concatenation is valid UTF-8; per chunk and per whole array (any number of chunks, any division into data events, incl. empty events and splits inside characters) the validator's verdict and resulting state are a function of the chunk lengths, more-flags and concatenated bytes only: accepted iff sizes match, the total is within the limit and every chunk of a validated string-like type is valid UTF-8 (hence ends on a character boundary); overshoot is rejected. The dispatch matrix is translated from the rule method bodies on every run; the context primitives are hand-modelled and compared with the implementation on every run (random + split-pair inputs).",
+   note=COMMON_NOTE + "Array theorems are parametric in the parent-rule callback; side conditions (chunk_shape: data completes exactly at the last event of a chunk, non-wrapping byte counts) are stated in Props/C11.v; too-little data / data after the end is rejected by the rule table, covered by the correspondence run and the exhaustive alphabet exploration, not by a theorem.",
+   technique="Coq proof by induction over data events and chunks (UTF-8 decomposition lemmas) + source-translated dispatch table + differential run"),
+ "C12": dict(
+   text="Theorems: NotifyKey's normalisation maps two keys (any event form: unsigned, negative-integer, signed, big integer, uid, time, string, resource id, bool) to the same stored key iff they denote the same value; hence a key is rejected exactly when the current container already holds a key with the same value and is otherwise added. Model tied by the translated dispatch table and a differential run over maps/record types built from families of colliding and non-colliding spellings, plus crafted CBE documents using every binary encoding of an integer.",
+   note=COMMON_NOTE + "The statement 'every accepted map has pairwise distinct keys' at whole-document level additionally needs the reachability invariant that a container's key set holds exactly the keys notified since it began; that invariant is exercised by the correspondence run (model state vs implementation verdicts) but not yet proved as a theorem.",
+   technique="Coq proof (case analysis on key forms, lia on integer ranges) + differential run"),
+ "C15": dict(
+   text="Theorems for all event lists and configurations: the events handed to the next receiver are exactly map nn of the accepted prefix (each accepted event once, in order, same arguments; nn rewrites only nil big numbers to null and NaN-valued float/decimal/big-decimal events to NaN events of the same kind) — both when everything is accepted and when some event is rejected.",
+   note=COMMON_NOTE + "The receiver layer (rules_event_rcv.go) is hand-modelled; every check compares the model's forwarded events with a recording receiver behind rules.NewRules on generated valid streams, mutants and nil/NaN carriers.",
+   technique="Coq proof by case analysis on the event and induction on the stream + differential run"),
+ "C18": dict(
+   text="Theorem: for every heap of big-number cells, every visit order with arbitrary sharing (by pointer or by value) and both encoders, marshaling leaves every cell unchanged (C18_full), with the exact bytes written; the model follows cbe/encoder.go OnBigInt/OnPositiveInt/OnNegativeInt with explicit 64-bit wrap-around and the CTE big-integer writer. A deep before/after snapshot oracle runs over random value trees and 88 boundary big numbers in 16 shapes through 8 entry points.",
+   note=COMMON_NOTE + "big.Float and apd.Decimal cells are modelled as read-only on the strength of reading the library code; the snapshot oracle checks it empirically. Non-big-number Go types are covered by the oracle only.",
+   technique="Coq proof (case analysis on integer ranges) + differential run + snapshot oracle"),
+ "C26": dict(
+   text="Theorems for all slice lengths and element patterns and every width: bytes_to_slice . slice_to_bytes = id on in-range elements; slice_to_bytes . bytes_to_slice = the longest whole-element prefix (= id when the length is a multiple of the width); explicit little-endian byte order; length facts; which code path runs (the inverted endianness probe selects the byte-wise fallbacks on little-endian hosts); ties to the iterator's and builders' own byte loops incl. the float32 signalling-NaN deviation. Model compared with all 9 public helper pairs on lengths 0..33, boundary and NaN patterns.",
+   note=COMMON_NOTE + "The unsafe fast path (dead code on this host) is modelled only as 'big-endian host output'; unexported Float16/UUID helpers are recorded but outside the property. Two open known findings (float32 signalling NaNs in the iterator and array-builder paths).",
+   technique="Coq proof by induction over element lists using the LE library + differential run"),
 }
 NOT_CLAIMED = {}
